@@ -3,6 +3,9 @@ package main
 import (
 	"fmt"
 	"go/ast"
+	"go/scanner"
+	"go/token"
+	"strings"
 )
 
 // Anchored sites of C19 (limiter.go / fusion.go / storage_merge.go / aggregation.go).
@@ -35,10 +38,6 @@ func init() {
 		if err != nil {
 			return "", err
 		}
-		smr, err := need("", "scoreMapToRanks")
-		if err != nil {
-			return "", err
-		}
 		// every index expression of Autocut over diff / yValues, in source order
 		var idxs []string
 		ast.Inspect(ac, func(n ast.Node) bool {
@@ -57,18 +56,6 @@ func init() {
 				return true
 			})
 		}
-		// assignments into the rank map
-		var rankAssign []string
-		ast.Inspect(smr, func(n ast.Node) bool {
-			if as, ok := n.(*ast.AssignStmt); ok && len(as.Lhs) == 1 {
-				if ix, ok := as.Lhs[0].(*ast.IndexExpr); ok {
-					if id, ok := ix.X.(*ast.Ident); ok && id.Name == "ranks" {
-						rankAssign = append(rankAssign, p.Src(as))
-					}
-				}
-			}
-			return true
-		})
 		// sort comparators of the six aggregations
 		var aggSorts []string
 		for _, recv := range []string{"vectorSumAggregation", "vectorMaxAggregation", "vectorMeanAggregation",
@@ -81,37 +68,64 @@ func init() {
 		}
 		b := ""
 		b += "/-- all `if` conditions of Autocut, in source order -/\n"
-		b += "def autocutConds : List String := " + LeanStrList(p.IfConds(ac, "")) + "\n\n"
+		b += "def autocutConds : List String := " + LeanStrList(canonAll(p.IfConds(ac, ""))) + "\n\n"
 		b += "/-- all index expressions of Autocut, in source order -/\n"
-		b += "def autocutIndexes : List String := " + LeanStrList(idxs) + "\n\n"
+		b += "def autocutIndexes : List String := " + LeanStrList(canonAll(idxs)) + "\n\n"
 		b += "/-- the `if` conditions of AutocutResults -/\n"
-		b += "def autocutResultsConds : List String := " + LeanStrList(p.IfConds(acr, "")) + "\n\n"
+		b += "def autocutResultsConds : List String := " + LeanStrList(canonAll(p.IfConds(acr, ""))) + "\n\n"
 		b += "/-- slice expressions of LimitResults and AutocutResults -/\n"
-		b += "def limiterSlices : List String := " + LeanStrList(slices) + "\n\n"
+		b += "def limiterSlices : List String := " + LeanStrList(canonAll(slices)) + "\n\n"
 		b += "/-- the `if` conditions of mergeResults -/\n"
-		b += "def mergeConds : List String := " + LeanStrList(p.IfConds(mr, "")) + "\n\n"
+		b += "def mergeConds : List String := " + LeanStrList(canonAll(p.IfConds(mr, ""))) + "\n\n"
 		b += "/-- the comparator of sortResultsByScore -/\n"
-		b += "def mergeSortCalls : List String := " + LeanStrList(p.Calls(srt, "sort.Slice")) + "\n\n"
-		b += "/-- assignments `ranks[…] = …` of scoreMapToRanks -/\n"
-		b += "def rankAssigns : List String := " + LeanStrList(rankAssign) + "\n\n"
-		b += "/-- the swap conditions of scoreMapToRanks -/\n"
-		b += "def rankSwapAssigns : List String := " + LeanStrList(assignsTo(p, smr, "shouldSwap")) + "\n\n"
+		b += "def mergeSortCalls : List String := " + LeanStrList(canonAll(p.Calls(srt, "sort.Slice"))) + "\n\n"
 		b += "/-- sort comparators of the six Aggregate methods (vector sum, max, mean; text sum, max, mean) -/\n"
-		b += "def aggSortCalls : List String := " + LeanStrList(aggSorts) + "\n"
+		b += "def aggSortCalls : List String := " + LeanStrList(canonAll(aggSorts)) + "\n"
 		return b, nil
 	}})
 }
 
-// assignsTo lists the assignment / define statements in fn whose single LHS is the identifier `name`.
-func assignsTo(p *Pkg, fn *ast.FuncDecl, name string) []string {
-	var out []string
-	ast.Inspect(fn, func(n ast.Node) bool {
-		if as, ok := n.(*ast.AssignStmt); ok && len(as.Lhs) == 1 {
-			if id, ok := as.Lhs[0].(*ast.Ident); ok && id.Name == name {
-				out = append(out, p.Src(as))
-			}
+// canonIdents makes a printed Go expression independent of the names of local variables and
+// parameters: every identifier that is not a field / method selector (preceded by '.'), a
+// package qualifier, a builtin or a basic type becomes $1, $2, … in order of first occurrence
+// within the expression. Renaming a variable leaves the fact unchanged; exchanging two of them
+// (results[j] > results[i]), another constant, operator or field does not.
+func canonIdents(src string) string {
+	keep := map[string]bool{"len": true, "cap": true, "min": true, "max": true, "sort": true, "math": true,
+		"int": true, "bool": true, "float32": true, "float64": true, "uint32": true, "true": true, "false": true, "nil": true}
+	fset := token.NewFileSet()
+	file := fset.AddFile("", fset.Base(), len(src))
+	var sc scanner.Scanner
+	sc.Init(file, []byte(src), nil, 0)
+	names := map[string]string{}
+	var out strings.Builder
+	last, prev := 0, token.ILLEGAL
+	for {
+		pos, tok, lit := sc.Scan()
+		if tok == token.EOF {
+			break
 		}
-		return true
-	})
-	return out
+		off := file.Offset(pos)
+		if tok == token.IDENT && prev != token.PERIOD && !keep[lit] {
+			if _, ok := names[lit]; !ok {
+				names[lit] = fmt.Sprintf("$%d", len(names)+1)
+			}
+			out.WriteString(src[last:off])
+			out.WriteString(names[lit])
+			last = off + len(lit)
+		}
+		if tok != token.SEMICOLON || lit != "\n" { // ignore automatically inserted semicolons
+			prev = tok
+		}
+	}
+	out.WriteString(src[last:])
+	return out.String()
+}
+
+func canonAll(ss []string) []string {
+	o := make([]string, len(ss))
+	for i, s := range ss {
+		o[i] = canonIdents(s)
+	}
+	return o
 }
